@@ -486,6 +486,11 @@ def isbuiltintype(
 
 @compat.cache
 def isstdlibtype(obj: type) -> compat.TypeIs[type[STDLibtypeT]]:
+    # An alias or NewType of a union has no arguments of its own: judge what it stands for.
+    obj = resolve_supertype(obj)
+    if istypealiastype(obj):
+        value = obj.__value__
+        return False if isinstance(value, str) else isstdlibtype(value)
     if isoptionaltype(obj):
         # `None` may be declared at any position (e.g., `Union[None, X]`, `None | X`).
         nargs = [a for a in tp.get_args(obj) if a not in (None, type(None))]
